@@ -1,21 +1,8 @@
 """c14_opmode — C14 on the optimization-mode statement generator: C04's single-field stream
 (type x offset x {plain, alias, array, alias-to-array}; T1 on every emitted statement, gcc-built
 -O code under the four build configurations) restricted to the single-field space."""
-import opwire
+from opstage import opmode_stage
 
 
 def run_c14_opmode(ck, pairs, make_cases):
-    cov = ck.coverage
-    saved = {k: cov.get(k) for k in ("evaluations", "distinct_nontrivial", "rule", "samples", "distribution", "exhaustive")}
-    tie = dict(cov.get("tie", {}))
-    n_single = 4160 if not ck.quick else 100
-    opwire.run_opmode(ck, "C14.v", n_quick=(0, n_single, 6), n_thorough=(0, 4160, 6))
-    op = {"evaluations": cov.get("evaluations", 0), "tie": cov.get("tie", {})}
-    cov["evaluations"] = (saved["evaluations"] or 0) + (cov.get("evaluations") or 0)
-    cov["distinct_nontrivial"] = (saved["distinct_nontrivial"] or 0) + (cov.get("distinct_nontrivial") or 0)
-    cov["rule"] = saved["rule"]
-    cov["samples"] = (saved["samples"] or []) + (cov.get("samples") or [])[:1]
-    cov["distribution"] = saved["distribution"]
-    cov["exhaustive"] = saved["exhaustive"]
-    tie["opmode_single_field_stream"] = op
-    cov["tie"] = tie
+    opmode_stage(ck, "C14.v", (0, 100, 6), (0, 4160, 6), "opmode_single_field_stream")
